@@ -29,7 +29,8 @@ SPELLINGS = {
 KINDS = {
     "Int": ([0, 1, -1, 5], ["0", "1", "-1", "5", "3"], int),
     "Float": ([0.0, 2.5, -1.5, 3.0, 0.30000000000000004, 4000000001.0], ["0", "2.5", "-1.5", "3", "0.3", "4000000000"], float),
-    "Str": (["", "a", "b"], ["", "a", "b"], str),
+    # labels that look like booleans / numbers and blank-padded fixed-width literals are ordinary strings
+    "Str": (["", "a", "b", "TRUE", "false", "1", "ON  ", " ON"], ["", "a", "b", "TRUE", "False", "1", "0", "ON  ", "ON", " ON"], str),
     "Bool": ([0, 1], ["0", "1"], int),
 }
 
@@ -142,6 +143,42 @@ def comparison_cases(ctx: Ctx, h: Harness):
         ctx.decide(bad is None, "R6.cmp", site, "", bad or "", where=where(fi, fi.node))
     except Unsupported as e:
         ctx.unknown("R6.cmp", site, str(e))
+
+
+def declared_cases(ctx: Ctx):
+    """R6.xml: criteria as declared in a document - the literal is the attribute / element text as written (blank padding is
+    part of a string literal; boolean-looking labels stay labels)."""
+    from ..xmlmodel import make_elem
+    from . import xmlcommon as X
+    fi = ctx.prog.func(f"{CMP}::Comparison.evaluate")
+    site = f"{CMP}::Comparison.from_xml::string literals as written"
+    try:
+        hx = X.harness(ctx.prog)
+        X.set_ns_state(hx, None, {})
+        bad = None
+        for lit in ("ON  ", " ON", "ON", "TRUE", "false", "1", ""):
+            for v in ("ON  ", " ON", "ON", "TRUE", "false", "1", "0", ""):
+                for op in ("==", "!="):
+                    el = make_elem("Comparison", {"parameterRef": "P", "value": lit, "comparisonOperator": op})
+                    pkt = hx.packet(b"", {"P": hx.val("Str", v, v.encode())})
+                    k, got = hx.outcome("comparisons.Comparison.from_xml(el).evaluate(pkt)", "xtce/encodings.py", el=el, pkt=pkt)
+                    want = (v == lit) if op == "==" else (v != lit)
+                    if k != "ok" or got is not want:
+                        bad = f"<Comparison parameterRef=P value={lit!r} comparisonOperator={op!r}> with P={v!r}: {got!r}; the relation is {want}"
+                        break
+                    cel = make_elem("Condition", children=[make_elem("ParameterInstanceRef", {"parameterRef": "P"}),
+                                                            make_elem("ComparisonOperator", text=op), make_elem("Value", text=lit)])
+                    k, got = hx.outcome("comparisons.Condition.from_xml(el).evaluate(pkt)", "xtce/encodings.py", el=cel, pkt=pkt)
+                    if lit != "" and (k != "ok" or got is not want):
+                        bad = f"<Condition> P {op} <Value>{lit!r}</Value> with P={v!r}: {got!r}{' (raised)' if k != 'ok' else ''}; the relation is {want}"
+                        break
+                if bad:
+                    break
+            if bad:
+                break
+        ctx.decide(bad is None, "R6.xml", site, "", bad or "", where=where(fi, fi.node))
+    except (Unsupported, Raised) as e:
+        ctx.unknown("R6.xml", site, str(e))
 
 
 def condition_cases(ctx: Ctx, h: Harness):
@@ -427,6 +464,7 @@ def check(ctx: Ctx) -> None:
     tab = ctx.guard("R6.1", f"{CMP}::MatchCriteria", table, ctx, h)
     ctx.guard("R6.cmp", f"{CMP}::Comparison.evaluate", comparison_cases, ctx, h)
     ctx.guard("R6.cond", f"{CMP}::Condition.evaluate", condition_cases, ctx, h)
+    ctx.guard("R6.xml", CMP, declared_cases, ctx)
     ctx.guard("R6.bool", f"{CMP}::BooleanExpression.evaluate", boolean_cases, ctx, h, thorough)
     ctx.guard("R6.lookup", f"{CMP}::DiscreteLookup.evaluate", lookup_cases, ctx, h)
     ctx.guard("R6.2", CMP, taint_rule, ctx)
@@ -477,7 +515,7 @@ SPEC = PropSpec(
     pid="C06",
     title="Match criteria evaluate to the mathematical truth of their comparisons",
     check=check,
-    floors={"R6.1": 16, "R6.cmp": 25, "R6.cond": 54, "R6.bool": 40, "R6.lookup": 1, "R6.2": 4, "R6.pure": 4, "R6.consumer": 2},
+    floors={"R6.1": 16, "R6.cmp": 25, "R6.cond": 54, "R6.bool": 40, "R6.lookup": 1, "R6.2": 4, "R6.pure": 4, "R6.consumer": 2, "R6.xml": 1},
     explanation=("(1) Table rule R6.1: every accepted operator spelling maps to the relation it denotes. "
                  "(2) Taint rule R6.2: no truthiness test on a value read from the packet inside the evaluators. "
                  "(3) Decision tables by abstract interpretation of the evaluators' source over model packets and "
